@@ -163,6 +163,7 @@ func (vc *VC) loopHead(st *State, fr *Frame, h, pred *ssa.BasicBlock, back bool,
 		hv[i] = v
 		fr.vals[p] = v
 	}
+	vc.trHavoc(st)
 	// ghost call counters are loop-carried too when the body may call
 	if all {
 		cn := vc.fresh("callsN", SInt)
@@ -603,14 +604,20 @@ func Verify(P *Program, blk *Block, opt Options) (res *Result) {
 	st.callsN = "0"
 	st.callsA = vc.fresh("callsA", "(Array Int Int)").S
 	st.callsR = vc.fresh("callsR", "(Array Int Int)").S
+	vc.trInit(st)
 	fr := &Frame{fn: fn, vals: map[ssa.Value]T{}, top: true, closures: map[ssa.Value]*closureInfo{}}
-	for _, p := range fn.Params {
+	for i, p := range fn.Params {
 		v := T{S: "p_" + mangle(p.Name()), Sort: vc.sortOf(p.Type())}
 		vc.declare(v.S, nil, v.Sort)
 		vc.refFacts(st, v, p.Type())
 		fr.vals[p] = v
 		vc.params[p.Name()] = v
 		vc.paramTy[p.Name()] = p.Type()
+		if len(blk.Implements) > 0 {
+			// the function type's contract speaks of arg0, arg1, ...
+			vc.params[fmt.Sprintf("arg%d", i)] = v
+			vc.paramTy[fmt.Sprintf("arg%d", i)] = p.Type()
+		}
 	}
 	for _, fv := range fn.FreeVars {
 		v := T{S: "fv_" + mangle(fv.Name()), Sort: vc.sortOf(fv.Type())}
